@@ -55,7 +55,7 @@ def primValStr : PrimVal → String
   | .u8 n => s!"{n}u8" | .u16 n => s!"{n}u16" | .u32 n => s!"{n}u32" | .u64 n => s!"{n}u64"
   | .i8 n => s!"{n}i8" | .i16 n => s!"{n}i16" | .i32 n => s!"{n}i32" | .i64 n => s!"{n}i64"
   | .f32 b _ => s!"f32#{b}" | .f64 b _ => s!"f64#{b}"
-  | .bool b => s!"{b}" | .char c => s!"char#{c}" | .ptr => "ptr" | .none => "none"
+  | .bool b => s!"{b}" | .char c => s!"char#{c.toNat}" | .ptr => "ptr" | .none => "none"
 
 mutual
 /-- exact rendering (with bracketing) -/
